@@ -340,6 +340,9 @@ func (n *WorkflowNode) checkAndAddMappedPath(paths []FieldPath) error {
 		if _, ok = v.(struct{}); ok {
 			return fmt.Errorf("entire output has already been mapped for node: %s", n.key)
 		}
+		if len(paths) == 0 {
+			return fmt.Errorf("fields have already been mapped for node: %s, cannot map the entire input as well", n.key)
+		}
 	} else {
 		if len(paths) == 0 {
 			n.mappedFieldPath[""] = struct{}{}
@@ -354,16 +357,23 @@ func (n *WorkflowNode) checkAndAddMappedPath(paths []FieldPath) error {
 		var traversed FieldPath
 		for i, path := range targetPath {
 			traversed = append(traversed, path)
-			if v, ok := m[path]; ok {
-				if _, ok = v.(struct{}); ok {
+			v, existed := m[path]
+			if existed {
+				if _, ok := v.(struct{}); ok {
 					return fmt.Errorf("two terminal field paths conflict for node %s: %v, %v", n.key, traversed, targetPath)
 				}
 			}
 
 			if i < len(targetPath)-1 {
-				m[path] = make(map[string]any)
+				// never replace an existing intermediate node: its mapped sub-paths would be forgotten
+				if !existed {
+					m[path] = make(map[string]any)
+				}
 				m = m[path].(map[string]any)
 			} else {
+				if existed {
+					return fmt.Errorf("field path conflicts with already mapped sub-paths for node %s: %v", n.key, targetPath)
+				}
 				m[path] = struct{}{}
 			}
 		}
